@@ -50,11 +50,17 @@ def mk_scalar(v, form, np):
 
 def h_assign(c, np, cla):
     s = c["scale"]
-    tab = np.array(c["cost"], dtype=np.float64) / (2.0 ** s)
+    tab64 = np.array(c["cost"], dtype=np.float64) / (2.0 ** s)
+    tab = tab64.astype(getattr(np, c.get("table_dtype", "float64")))
+    if not (tab.astype(np.float64) == tab64).all():
+        raise RuntimeError("harness: table not exactly representable in " + c["table_dtype"])
     if c.get("order") == "F":
         tab = np.asfortranarray(tab)
     if c["beta_form"] == "vector":
-        beta = np.array(c["beta"], dtype=np.float64) / (2.0 ** s)
+        b64 = np.array(c["beta"], dtype=np.float64) / (2.0 ** s)
+        beta = b64.astype(getattr(np, c.get("vector_dtype", "float64")))
+        if not (beta.astype(np.float64) == b64).all():
+            raise RuntimeError("harness: vector beta not exactly representable in " + c["vector_dtype"])
     else:
         beta = mk_scalar(c["beta"] / (2.0 ** s) if c["beta_form"] != "int" else c["beta"] // (2 ** s),
                          c["beta_form"], np)
